@@ -68,9 +68,9 @@ Notation CANON := (canon prec isop kws nr dr).
    reads as that operator; the cast names, true/false are read back as themselves; Inf and NaN are not keywords *)
 Definition lex_tables : Prop :=
   (forall o, isop o = true ->
-     match sym_text o with
-     | Some t => op_text o = t
-     | None => bare_ok (op_text o) = true /\ WT (op_text o) = TOp o
+     match sym_texts o with
+     | [] => bare_ok (op_text o) = true /\ WT (op_text o) = TOp o
+     | ts => In (op_text o) ts
      end) /\
   (forall d, printable_dtype d = true -> dtype_eqb d DUnknown = false -> WT (dtype_text d) = dtype_tok d) /\
   WT [116;114;117;101] = TTrue /\ WT [102;97;108;115;101] = TFalse /\
@@ -387,19 +387,21 @@ Proof.
     apply (lexes_trans _ _ _ _ _ _ _ _ (PT l) (32 :: op_text o ++ 32 :: PTX r ++ rest)).
     { apply (IH l false); [clear - Hn; lia | exact Hl | reflexivity |]. intro Hx. rewrite (canon_not_regex l Hl) in Hx. discriminate. }
     assert (Hopws : hd_sat is_ws (op_text o ++ 32 :: PTX r ++ rest) = false).
-    { specialize (HTop o Hop). destruct (sym_text o) as [t|] eqn:Es.
-      - rewrite HTop. destruct o; cbn [sym_text] in Es; inversion Es; reflexivity.
+    { specialize (HTop o Hop). destruct (sym_texts o) as [|t0 ts] eqn:Es.
       - destruct HTop as [Hb _]. destruct (bare_ok_chars _ Hb) as [c [w' [Ew [Hc1 _]]]]. rewrite Ew.
-        cbn [app hd_sat]. destruct (ident_first_class c Hc1) as [X _]. exact X. }
+        cbn [app hd_sat]. destruct (ident_first_class c Hc1) as [X _]. exact X.
+      - rewrite <- Es in HTop. clear - HTop.
+        destruct o; cbn [sym_texts In] in HTop; repeat (destruct HTop as [HTop|HTop]); try contradiction;
+          rewrite <- HTop; reflexivity. }
     apply (lexes_cons _ TWs (op_text o ++ 32 :: PTX r ++ rest)); [apply lex_ws; exact Hopws|].
     apply (lexes_cons _ (TOp o) (32 :: PTX r ++ rest)).
-    { specialize (HTop o Hop). destruct (sym_text o) as [t|] eqn:Es.
-      - rewrite HTop. apply lex_symop; [exact Es|].
+    { specialize (HTop o Hop). destruct (sym_texts o) as [|t0 ts] eqn:Es.
+      2: { rewrite <- Es in HTop. apply lex_symop; [exact HTop|].
         intro Eo. subst o. cbn [op_eqb op_idx N.eqb Pos.eqb] in Hdiv.
         cbn [run fold_left advance s_prev s_last s_stk].
         change (fold_left advance (PT l) st) with (run (PT l) st).
-        apply and_comm. apply good_end_div. apply (div_state l false); assumption.
-      - destruct HTop as [Hb Hw]. rewrite <- Hw. apply lex_word; [exact Hb | reflexivity | reflexivity]. }
+        apply and_comm. apply good_end_div. apply (div_state l false); assumption. }
+      destruct HTop as [Hb Hw]. rewrite <- Hw. apply lex_word; [exact Hb | reflexivity | reflexivity]. }
     apply (lexes_cons _ TWs (PTX r ++ rest)); [apply lex_ws; apply (head_nonws r argr); exact Hcr|].
     apply (IH r argr); [clear - Hn; lia | exact Hcr | exact Hs |].
     intro Hx. specialize (Hrx Hx). cbn [run fold_left advance s_last s_stk].
@@ -453,9 +455,9 @@ Variables ct cf cfield ctag cdistinct : N.
 Notation WT := (word_tok kws op_of_code ct cf cfield ctag cdistinct).
 
 Definition op_lex_b (o : op) : bool :=
-  match sym_text o with
-  | Some t => str_eqb (op_text o) t
-  | None => bare_ok (op_text o) && tok_same (WT (op_text o)) (TOp o)
+  match sym_texts o with
+  | [] => bare_ok (op_text o) && tok_same (WT (op_text o)) (TOp o)
+  | ts => existsb (str_eqb (op_text o)) ts
   end.
 
 Definition lex_tables_b : bool :=
@@ -473,9 +475,9 @@ Proof.
   split; [|split; [|repeat split; apply tok_same_eq; assumption]].
   - intros o Ho. assert (Hin : In o all_ops) by (destruct o; cbn; tauto).
     pose proof (proj1 (forallb_forall _ _) H1 o Hin) as Hx. cbn beta in Hx. rewrite Ho in Hx. cbn [negb orb] in Hx.
-    unfold op_lex_b in Hx. destruct (sym_text o).
-    + apply str_eqb_eq. exact Hx.
+    unfold op_lex_b in Hx. destruct (sym_texts o) as [|t0 ts].
     + apply andb_prop in Hx. destruct Hx as [Hb Hw]. split; [exact Hb | apply tok_same_eq; exact Hw].
+    + apply existsb_exists in Hx. destruct Hx as [t [Hin' He]]. apply str_eqb_eq in He. rewrite He. exact Hin'.
   - intros d Hp Hd. assert (Hin : In d all_dtypes) by (destruct d; cbn; tauto).
     pose proof (proj1 (forallb_forall _ _) H2 d Hin) as Hx.
     cbn beta in Hx. rewrite Hp, Hd in Hx. cbn [negb orb] in Hx. apply tok_same_eq. exact Hx.
